@@ -26,4 +26,4 @@ unsigned char in_uchar(int k) { return (unsigned char)get("uchar", k); }
 double in_double(int k) { unsigned long long u = get("double", k); double d; memcpy(&d, &u, 8); return d; }
 void VX_ENTRY(void);
 }
-int main() { setvbuf(stdout, 0, _IONBF, 0); VX_ENTRY(); printf("VX-DONE\n"); return 0; }
+int main() { setvbuf(stdout, 0, _IONBF, 0); VX_ENTRY(); printf("VX-DONE\n"); fflush(stdout); _Exit(0); /* harness statics are not torn down (CBMC does not either) */ }
